@@ -23,15 +23,15 @@ RULE = (
 )
 BOUNDS = {
     "quick": "m,n in {2..4}, input rank in {1, R, min}, R=1..min, oversample {0,1,2,5,10}, rand_qsvd n_iter 0..3, pass_eff_qsvd n_passes 2..5, seeds 0..3",
-    "thorough": "m,n in {2..5}, all input ranks, seeds 0..15",
+    "thorough": "m,n in {2..6}, all input ranks, seeds 0..15",
 }
 WALL_BUDGET = {"quick": 600, "thorough": 3400}
 ASSUMPTIONS = ["inputs have prescribed, well separated singular values {4,2,1,1/2,1/4}; sigma_i(A) from the generator and cross-checked with the complex-adjoint oracle"]
-VALS = [4.0, 2.0, 1.0, 0.5, 0.25]
+VALS = [4.0, 2.0, 1.0, 0.5, 0.25, 0.125]
 
 
 def cases(tier, seed):
-    S = 4 if tier == "quick" else 5
+    S = 4 if tier == "quick" else 6
     out = []
     for m, n in itertools.product(range(2, S + 1), repeat=2):
         p = min(m, n)
